@@ -77,6 +77,11 @@ func c17GenSet(seed int64, idx int, tag string) *yang.ModSet {
 		top.Add(yang.S("leaf", "two-pat", yang.S("type", "string", yang.S("pattern", "t.*"), yang.S("pattern", ".*e"))),
 			yang.S("list", "two-pat-list", yang.S("key", "name"),
 				yang.S("leaf", "name", yang.S("type", "string", yang.S("pattern", "[a-z]+"), yang.S("pattern", "a.*"))),
+				yang.S("leaf", "weight", yang.S("type", "uint8"))),
+			// unions with two members of the same built-in type that differ in their restrictions
+			yang.S("leaf", "two-u", yang.S("type", "union", yang.S("type", "uint8", yang.S("range", "1..5")), yang.S("type", "uint8", yang.S("range", "10..20")))),
+			yang.S("list", "two-u-list", yang.S("key", "name"),
+				yang.S("leaf", "name", yang.S("type", "union", yang.S("type", "string", yang.S("pattern", "e.*")), yang.S("type", "string", yang.S("pattern", "a.*")))),
 				yang.S("leaf", "weight", yang.S("type", "uint8"))))
 	}
 	// key words written with the prefix of the list's own module (node-identifier = [prefix ":"] identifier)
